@@ -561,3 +561,14 @@ def oracle_c20(world):
                 V('dispose_did_not_cancel', 'interaction %d: disposing the result observable produced %d CANCEL frames' % (iid, len(cf)),
                   cancel['seq'], **facts)
     return out
+
+
+def oracle_c09_rx(world):
+    """C09 through the Rx / ReactiveX requester adapters: disposing the result observable is the
+    adapter's cancel(). The disposal rules of the C20 oracle, reported under C09."""
+    out = []
+    for v in oracle_c20(world):
+        if v.cls in ('C20.dispose_did_not_cancel', 'C20.signal_after_dispose'):
+            cls = {'C20.dispose_did_not_cancel': 'C09.rx_dispose_did_not_cancel', 'C20.signal_after_dispose': 'C09.rx_signal_after_dispose'}[v.cls]
+            out.append(Violation('C09', cls, v.msg, v.seq, **v.facts))
+    return out
